@@ -87,6 +87,8 @@ func main() {
 	flag.Var(&defs, "D", "harness parameter name=int; repeatable")
 	flag.Var(&overrides, "override", "callee=harnessFunc override; repeatable")
 	list := flag.Bool("list", false, "list entries and exit")
+	eoMode := flag.Bool("eo", false, "extract thread automata (event-order mode) instead of path exploration")
+	eoCap := flag.Int("eocap", 12, "unrolling cap per program point in EO extraction")
 	shard := flag.String("shard", "", "i/n : explore shard i of n (n a power of two)")
 	strint := flag.Bool("strint", true, "encode strings as integers (equality-only string reasoning)")
 	flag.Parse()
@@ -161,6 +163,24 @@ func main() {
 		}
 		t1 := time.Now()
 		ex.RunInit(pkg)
+		if *eoMode {
+			res := ex.ExtractEO(fn, *eoCap)
+			b, _ := json.Marshal(map[string]interface{}{"entry": fn.Name(), "eo": res, "wall_s": time.Since(t1).Seconds(), "queries": s.Queries})
+			if *out != "" {
+				os.WriteFile(*out, b, 0o644)
+			} else {
+				os.Stdout.Write(b)
+			}
+			fmt.Fprintf(os.Stderr, "%-40s EO: threads=%d nodes=%d edges=%d aborts=%d wall=%.2fs\n", fn.Name(), len(res.Threads), len(res.Nodes), len(res.Edges), len(res.Aborts), time.Since(t1).Seconds())
+			for _, m := range res.Aborts {
+				fmt.Fprintln(os.Stderr, "   abort:", m)
+			}
+			s.Close()
+			if len(res.Aborts) > 0 {
+				os.Exit(2)
+			}
+			return
+		}
 		ex.Run(fn)
 		eo := EntryOut{Entry: fn.Name(), Paths: ex.Stats.Paths, SymPaths: ex.Stats.SymPaths, Forks: ex.Stats.Forks, Steps: ex.Stats.Steps,
 			Obligations: ex.Stats.Obligations, Discharged: ex.Stats.Discharged, Trivial: ex.Stats.TrivialAsserts, Unknown: ex.Stats.Unknown,
